@@ -620,6 +620,76 @@
         assert!(failures.is_empty());
     }
 
+    /// C02 end to end: path rewriting off; for every text that can be segmented into dictionary words, (1) the cumulative cost reported
+    /// for each mode C morpheme equals the sum recomputed along the returned path from the word parameters and the connection matrix
+    /// (sentence start included), and (2) that path - with the connection to the sentence end - costs no more than the cheapest
+    /// segmentation into dictionary words found by an independent dynamic programme over the public lookup.
+    #[test]
+    fn verif_oracle_min_cost_path() {
+        if !want("C02") { return; }
+        let (cfgb, _jd0) = dict();
+        let mut cfg = cfgb.config();
+        cfg.path_rewrite_plugins.clear();
+        let jd = JapaneseDictionary::from_cfg(&cfg).unwrap();
+        let conn = jd.grammar().conn_matrix();
+        let lex = jd.lexicon();
+        let vocab = ["東京", "都", "東京都", "京都", "に", "行っ", "た", "いく", "い", "く", "行く", "東", "京"];
+        let mut texts: Vec<String> = Vec::new();
+        let mut frontier = vec![String::new()];
+        for _ in 0..4 {
+            let mut nf = Vec::new();
+            for t in &frontier { for c in vocab.iter() { let mut s = t.clone(); s.push_str(c); nf.push(s); } }
+            texts.extend(nf.iter().cloned());
+            frontier = nf;
+        }
+        texts.sort(); texts.dedup();
+        let mut failures: Vec<String> = Vec::new();
+        let (mut cases, mut compared) = (0usize, 0usize);
+        for t in texts.iter() {
+            cases += 1;
+            let r = std::panic::catch_unwind(std::panic::AssertUnwindSafe(|| {
+                let mut tok = StatefulTokenizer::new(&jd, Mode::C);
+                tok.reset().push_str(t);
+                tok.do_tokenize().map(|_| { let mut ms = MorphemeList::empty(&jd); ms.collect_results(&mut tok).unwrap(); ms.iter().map(|m| (m.begin(), m.end(), m.word_id(), m.is_oov(), m.total_cost())).collect::<Vec<_>>() })
+            }));
+            let toks = match r { Ok(Ok(x)) => x, _ => { if failures.len() < 20 { failures.push(format!("C02: analysis of {:?} fails", t)); } continue; } };
+            if toks.iter().any(|k| k.3) { continue; }                       // an unknown word on the path: its parameters are the provider's
+            // (1) cumulative costs along the returned path
+            let mut sum: i64 = 0; let mut prev_right: u16 = 0; let mut ok = true;
+            for k in toks.iter() {
+                let (l, r_, c) = lex.get_word_param(k.2);
+                sum += conn.cost(prev_right, l as u16) as i64 + c as i64;
+                if sum != k.4 as i64 { ok = false; }
+                prev_right = r_ as u16;
+            }
+            if !ok && failures.len() < 20 { failures.push(format!("C02: {:?}: cumulative costs reported {:?}, recomputed along the path they end at {}", t, toks.iter().map(|k| k.4).collect::<Vec<_>>(), sum)); }
+            let total = sum + conn.cost(prev_right, 0) as i64;
+            // (2) independent minimum over dictionary segmentations: best[pos][right id]
+            let n = t.len();
+            let mut best: Vec<std::collections::HashMap<u16, i64>> = vec![std::collections::HashMap::new(); n + 1];
+            best[0].insert(0, 0);
+            for p in 0..n {
+                if best[p].is_empty() { continue; }
+                let here: Vec<(u16, i64)> = best[p].iter().map(|(a, b)| (*a, *b)).collect();
+                for e in lex.lookup(t.as_bytes(), p) {
+                    let (l, r_, c) = lex.get_word_param(e.word_id);
+                    for (pr, pc) in here.iter() {
+                        let v = pc + conn.cost(*pr, l as u16) as i64 + c as i64;
+                        let slot = best[e.end].entry(r_ as u16).or_insert(i64::MAX);
+                        if v < *slot { *slot = v; }
+                    }
+                }
+            }
+            if let Some(m) = best[n].iter().map(|(r_, c)| c + conn.cost(*r_, 0) as i64).min() {
+                compared += 1;
+                if total > m && failures.len() < 20 { failures.push(format!("C02: {:?}: the returned path {:?} costs {} (sentence end included), a segmentation into dictionary words costs {}", t, toks.iter().map(|k| &t[k.0..k.1]).collect::<Vec<_>>(), total, m)); }
+            }
+        }
+        println!("verif_oracle_min_cost_path: {} texts ({} compared with the independent minimum), {} failures", cases, compared, failures.len());
+        for f in failures.iter().take(5) { println!("FAILING INPUT: {}", f); }
+        assert!(failures.is_empty());
+    }
+
     /// C14, path-rewrite plugins only merge neighbours: every text of up to 5 pieces over {アイ ウ ア に 1 万 , 京都} is analysed with the
     /// configured plugins (numeral joining, katakana-OOV joining) and with none; the boundaries with plugins are a subset of those
     /// without, a token that is not the result of a merge is reported unchanged, and a merged token swallows only katakana or
